@@ -54,6 +54,7 @@ fn show_bound(b: Option<usize>) -> String {
 
 #[derive(Default)]
 struct EvalHist {
+    last_read: BTreeMap<(usize, u8), Option<usize>>,
     deflater: Option<Deflaters>,
     tokens: Vec<String>,
     /// (nth, filter) -> (idat true size, key, raw, fitted)
@@ -83,6 +84,7 @@ pub fn histories(log: &[(std::thread::ThreadId, Event)], st: &mut Stats) -> Vec<
             Event::ReadBound { eval, nth, filter, bound } if *nth != usize::MAX => {
                 let h = evals.entry(*eval).or_default();
                 h.tokens.push(format!("R:{}:{}:{}", nth, *filter as u8, show_bound(*bound)));
+                h.last_read.insert((*nth, *filter as u8), *bound);
                 st.count("ev_read");
             }
             Event::SetMin { eval, nth, filter, value } => {
@@ -100,6 +102,16 @@ pub fn histories(log: &[(std::thread::ThreadId, Event)], st: &mut Stats) -> Vec<
                 let h = evals.entry(*eval).or_default();
                 // contract D2/D3: the unbounded result has the same size as the bounded one
                 let truth = h.deflater.and_then(|d| deflate_unbounded(d, filtered));
+                // generator quality for the slow compressor: how often a faster compressor's size and the trial's
+                // own size fall on different sides of the bound the trial read (only there can a pruning decision
+                // taken on a prediction differ from one taken on the final size)
+                if let (Some(Deflaters::Zopfli { .. }), Some(t), Some(Some(b))) = (h.deflater, truth, h.last_read.get(&(*nth, *filter as u8)).copied()) {
+                    st.count("zopfli_trials_with_bound");
+                    if let Some(l) = it::deflate(filtered, 12, None).ok().map(|v| v.len()) {
+                        if t <= b && l > b { st.count("zopfli_fits_libdeflate12_does_not"); }
+                        if t <= b && l > b + b / 32 { st.count("zopfli_fits_libdeflate12_over_by_3pct"); }
+                    }
+                }
                 let idat = match (idat_len, truth) {
                     (Some(n), Some(t)) => {
                         if *n != t {
@@ -316,12 +328,56 @@ fn tie_case(rng: &mut Rng) -> Case {
     Case { img, class: "tie-image".into(), enc, input, opts }
 }
 
+/// Cases for the slow compressor: few colours kept at a high colour depth (reductions off), where Zopfli and
+/// libdeflate differ by several percent and the best filter is not the first one tried, so that a pruning decision
+/// taken on anything but the trial's own final size shows up as a prune the model does not allow
+fn zopfli_case(rng: &mut Rng) -> Case {
+    use crate::img::*;
+    let ct = *rng.choose(&[6u8, 6, 2]);
+    let depth = *rng.choose(&[8u8, 8, 16]);
+    let (w, h) = (rng.range(12, 40) as u32, rng.range(12, 40) as u32);
+    let c = channels(ct);
+    let ncol = rng.range(2, 5) as usize;
+    let max = if depth == 16 { 65535u32 } else { 255 };
+    let cols: Vec<Vec<u16>> = (0..ncol).map(|_| (0..c).map(|_| (rng.next_u64() as u32 % (max + 1)) as u16).collect()).collect();
+    let (bx, by) = (rng.range(1, 6) as u32, rng.range(1, 6) as u32);
+    let k = rng.range(1, 3) as u32;
+    let noise = rng.range(0, 40) as u64;
+    let mut samples = Vec::with_capacity((w * h) as usize * c);
+    for y in 0..h {
+        for x in 0..w {
+            let mut i = ((x / bx) + (y / by) * k) as usize % ncol;
+            if rng.below(1000) < noise {
+                i = rng.below(ncol as u64) as usize;
+            }
+            samples.extend_from_slice(&cols[i]);
+        }
+    }
+    let g = Grid { w, h, ct, depth, palette: vec![], trns: None, samples };
+    let img = g.pack(false);
+    let enc = EncOpts { level: 1, idat_parts: 1, ..Default::default() };
+    let input = img.encode_png(rng, &enc);
+    let mut opts = gen_opts(rng, Profile::Lossless, false);
+    opts.deflate = Err(rng.range(1, 3) as u8);
+    opts.filter = (0..10u8).filter(|_| rng.chance(3, 4)).collect();
+    opts.fast_evaluation = false;
+    opts.bit_depth_reduction = false;
+    opts.color_type_reduction = false;
+    opts.palette_reduction = false;
+    opts.grayscale_reduction = false;
+    opts.interlace = None;
+    Case { img, class: "zopfli-image".into(), enc, input, opts }
+}
+
 pub fn corr(ctx: &mut Ctx) {
     let mut rng = Rng::new(ctx.seed ^ 0xE7A1);
     let mut st = Stats::default();
     for i in 0..ctx.n {
         let case = if rng.chance(1, 4) {
             tie_case(&mut rng)
+        } else if rng.chance(1, 6) {
+            st.count("zopfli_cases");
+            zopfli_case(&mut rng)
         } else {
             gen_case(&mut rng, Profile::Any, ctx.tier_thorough, 17)
         };
@@ -350,7 +406,67 @@ pub fn corr(ctx: &mut Ctx) {
             st.count("histories");
         }
     }
+    deflater_contract(&mut rng, ctx.n / 2 + 20, &mut st);
     ctx.write_stats(&st);
+}
+
+/// Contract D3, called directly on `Deflaters::deflate` (the function every trial goes through): with a size limit
+/// `m` the call succeeds iff the compressor's unbounded result has at most `m` bytes, and then returns exactly that
+/// result - the decision depends on nothing but the trial's own final size. Limits are placed on and around that
+/// size, which is where the evaluator's racing bound sits when a trial is only slightly better or worse than the best.
+fn deflater_contract(rng: &mut Rng, n: usize, st: &mut Stats) {
+    for k in 0..n {
+        let data: Vec<u8> = if k % 3 == 0 {
+            // runs and repeats
+            let mut v = vec![];
+            let len = rng.range(40, 6000) as usize;
+            let alphabet = rng.range(2, 40) as u64;
+            while v.len() < len {
+                let b = rng.below(alphabet) as u8;
+                let run = if rng.chance(1, 3) { rng.range(1, 60) as usize } else { 1 };
+                v.extend(std::iter::repeat(b).take(run));
+            }
+            v
+        } else {
+            zopfli_case(rng).img.data
+        };
+        let d = match rng.below(4) {
+            0 => Deflaters::Zopfli { iterations: std::num::NonZeroU8::new(rng.range(1, 3) as u8).unwrap() },
+            1 => Deflaters::Libdeflater { compression: 12 },
+            _ => Deflaters::Libdeflater { compression: *rng.choose(&[0u8, 1, 2, 5, 6, 8, 9, 10, 11, 12]) },
+        };
+        let zop = matches!(d, Deflaters::Zopfli { .. });
+        let Ok(full) = verif::deflate_with_bound(d, &data, None) else {
+            st.fail("deflater-contract", "unbounded compression failed".into(), "{}".into());
+            continue;
+        };
+        let t = full.len();
+        st.count(if zop { "contract_zopfli_inputs" } else { "contract_libdeflate_inputs" });
+        let mut limits = vec![t, t + 1, t.saturating_sub(1), t + t / 40, t - t / 40, t + 9, t.saturating_sub(9), 0, t * 2];
+        limits.push(rng.range(0, 2 * t as u64) as usize);
+        for m in limits {
+            st.count("contract_calls");
+            let got = verif::deflate_with_bound(d, &data, Some(m));
+            let ok = match &got {
+                Ok(v) => t <= m && (*v == full || (!zop && v.len() == t)),
+                Err(Some(_)) => t > m,
+                Err(None) => false,
+            };
+            if t <= m { st.count("contract_limit_admits"); } else { st.count("contract_limit_excludes"); }
+            if !ok {
+                st.fail(
+                    "deflater-contract",
+                    format!(
+                        "{:?} on {} bytes: unbounded result has {} bytes, with limit {} the call returned {}",
+                        d, data.len(), t, m,
+                        match &got { Ok(v) => format!("{} bytes", v.len()), Err(e) => format!("too long ({:?})", e) }
+                    ),
+                    format!("{{\"deflater\": {}, \"limit\": {}, \"data_hex\": {}}}", jstr(&format!("{:?}", d)), m, jstr(&crate::img::hex(&data))),
+                );
+                break;
+            }
+        }
+    }
 }
 
 /// Determinism oracle: the same (input, options) under different pool sizes and timings gives
